@@ -71,7 +71,7 @@ static uint32_t      Tick;                 /* virtual time = COTmrService calls 
 static uint8_t       NodeFill;
 
 /* dictionary description */
-enum { K_DIRECT, K_VAR, K_STR, K_DOM, K_HBC, K_PARA, K_NULL, K_USR };
+enum { K_DIRECT, K_VAR, K_STR, K_DOM, K_HBC, K_PARA, K_NULL, K_USR, K_GRP };
 typedef struct {
     uint32_t key; const CO_OBJ_TYPE *type; int kind; int width;
     uint32_t init; void *store; size_t storelen; uint8_t *initbytes;
@@ -339,6 +339,7 @@ static void build_dict(void)
         case K_DOM:    Dict[i].Data = (CO_DATA)d->dom; break;
         case K_HBC:    Dict[i].Data = (CO_DATA)d->hbc; break;
         case K_PARA:   Dict[i].Data = (CO_DATA)&Pg[d->gid].pg; break;
+        case K_GRP:    Dict[i].Data = (CO_DATA)(Pg[d->gid].ram + d->init); break;     /* a parameter that lives in the RAM block of a parameter group */
         case K_USR:    Dict[i].Data = (CO_DATA)d->store; break;
         default:       Dict[i].Data = 0; break;
         }
@@ -536,6 +537,7 @@ static void dump(void)
         case K_STR: hex(d->str->Start, d->storelen); break;
         case K_DOM: hex(d->dom->Start, d->storelen); break;
         case K_HBC: printf("%u:%u", d->hbc->NodeId, d->hbc->Time); break;
+        case K_GRP: { uint32_t v = 0; memcpy(&v, Pg[d->gid].ram + d->init, (size_t)d->width); printf("%x", v); } break;
         case K_USR: hex(((USRO *)d->store)->val, 4); break;
         default: printf("-"); break;
         }
@@ -585,6 +587,7 @@ int main(void)
                 d->dom = xalloc(sizeof(CO_OBJ_DOM)); d->dom->Start = xalloc(sz); d->dom->Size = (uint32_t)sz; }
             else if (!strcmp(k, "H")) { d->kind = K_HBC; d->hb_node = (uint8_t)U(6); d->hb_time = (uint16_t)U(7); d->hbc = xalloc(sizeof(CO_HBCONS)); }
             else if (!strcmp(k, "P")) { d->kind = K_PARA; d->gid = (int)U(6); }
+            else if (!strcmp(k, "G")) { d->kind = K_GRP; d->gid = (int)U(6); d->init = U(7); d->width = (int)U(8); }
             else if (!strcmp(k, "N")) { d->kind = K_NULL; }
             else if (!strcmp(k, "U")) { d->kind = K_USR; USRO *u = xalloc(sizeof(USRO)); d->store = u;
                 u->size = U(6); u->rderr = U(7); u->wrerr = U(8); u->abortc = X(9); d->init = U(10); }
